@@ -1030,11 +1030,26 @@ class Drivers(Sub):
         rec.nt("opt_real|%d|%d|%s|%s|%d|%d" % (steps, patience, case["opt"], case["strat"] if case["opt"] == "LM" else "-", n,
                                                sum(1 for _, _, r in trace if r)))
 
-    def _loop(self, case, rec, build, strict=False):
-        """MPC / ICP: the same object is called three times (stepper reused), counting wrapper around stepper.step"""
+    def _loop(self, case, rec, build, strict=False, default=None):
+        """MPC / ICP: the same object is called three times (stepper reused), counting wrapper around stepper.step.
+        default = (documented steps, documented effective budget): the driver is constructed WITHOUT a stepper - documented: 'If
+        None, the ReduceToBason with a maximum of 10 (MPC) / 200 (ICP) steps' - as the SECOND such object of the case: each object
+        has its own controller with the documented budget and the ReduceToBason defaults (a default controller shared between
+        objects - a mutable default argument - loses one step per constructed MPC - seed C20h)"""
         k, patience, thr, tol = case["steps"], case["patience"], case["thr"], case["tol"]
-        with rec.sut("ReduceToBason()"):
-            stepper = ReduceToBason(steps=k, patience=patience, decreasing=thr, tol=tol)
+        if default is not None:
+            k, patience, thr, tol = default[0], 5, 1e-3, 1e-5
+            calls, stepper, other = build(None)
+            rec.label(case["kind"] + ":default_stepper")
+            if not rec.check(isinstance(stepper, ReduceToBason) and stepper is not other, case["kind"] + ":default_stepper_shared",
+                             "%s: two drivers constructed without a stepper share one controller object (or it is not a ReduceToBason)" % case["kind"]):
+                return
+            rec.check(stepper.max_steps == default[1] and (stepper.patience, stepper.decreasing, stepper.tol) == (5, 1e-3, 1e-5), case["kind"] + ":default_budget",
+                      "%s constructed without a stepper: controller budget %r patience %r decreasing %r tol %r, documented ReduceToBason(steps=%d) "
+                      "(effective budget %d)" % (case["kind"], stepper.max_steps, stepper.patience, stepper.decreasing, stepper.tol, default[0], default[1]))
+        else:
+            with rec.sut("ReduceToBason()"):
+                stepper = ReduceToBason(steps=k, patience=patience, decreasing=thr, tol=tol)
         seen, orig = [], stepper.step
 
         def counted(loss):
@@ -1043,7 +1058,8 @@ class Drivers(Sub):
             seen.append([float(v) for v in torch.as_tensor(loss).detach().reshape(-1).tolist()])
             return orig(loss)
         stepper.step = counted
-        calls = build(stepper)
+        if default is None:
+            calls = build(stepper)
         budget = stepper.max_steps          # MPC documents n-1 loops
         rec.check(budget <= k, case["kind"] + ":budget_attr", "driver raised the stepper budget to %r > steps=%d" % (budget, k))
         desc = []
@@ -1098,9 +1114,14 @@ class Drivers(Sub):
 
         def build(stepper):
             with rec.sut("MPC()"):
-                mpc = pp.module.MPC(sysm, Q, p, T, stepper=stepper)
-            return [lambda: mpc(h, x0, u_init=u0), lambda: mpc(h, x1, u_init=u0), lambda: mpc(h, x0, u_init=0 * u0)]
-        self._loop(case, rec, build, strict)
+                if stepper is None:
+                    first = pp.module.MPC(sysm, Q, p, T)
+                    mpc = pp.module.MPC(sysm, Q, p, T) if case["seed"] % 2 else pp.module.MPC(sysm, Q, p, T, stepper=None)
+                else:
+                    mpc = pp.module.MPC(sysm, Q, p, T, stepper=stepper)
+            calls = [lambda: mpc(h, x0, u_init=u0), lambda: mpc(h, x1, u_init=u0), lambda: mpc(h, x0, u_init=0 * u0)]
+            return calls if stepper is not None else (calls, mpc.stepper, first.stepper)
+        self._loop(case, rec, build, strict, default=(10, 9) if case.get("default_stepper", case["seed"] % 4 == 0) else None)
 
     def _icp(self, case, rec, strict=False):
         rs = np.random.RandomState(case["seed"] % (2 ** 31))
@@ -1114,9 +1135,14 @@ class Drivers(Sub):
 
         def build(stepper):
             with rec.sut("ICP()"):
-                icp = pp.module.ICP(stepper=stepper)
-            return [lambda: icp(src, tgt), lambda: icp(tgt, src), lambda: icp(src2, tgt)]
-        self._loop(case, rec, build, strict)
+                if stepper is None:
+                    first = pp.module.ICP()
+                    icp = pp.module.ICP() if case["seed"] % 2 else pp.module.ICP(stepper=None)
+                else:
+                    icp = pp.module.ICP(stepper=stepper)
+            calls = [lambda: icp(src, tgt), lambda: icp(tgt, src), lambda: icp(src2, tgt)]
+            return calls if stepper is not None else (calls, icp.stepper, first.stepper)
+        self._loop(case, rec, build, strict, default=(200, 200) if case.get("default_stepper", case["seed"] % 4 == 0) else None)
 
     def simplify(self, case):
         if case["kind"] == "opt_stub":
@@ -1155,7 +1181,10 @@ class Canary(Drivers):
         for steps, patience, thr, tol in ((1, 1, 1e-3, 1e-5), (3, 1, 1e-3, 1e-5), (6, 2, 1e-6, 1e-5), (9, 4, 0.05, 1e-2)):
             for kind, batch in (("mpc", 0), ("icp", 0), ("icp", 2)):
                 yield {"kind": kind, "steps": steps, "patience": patience, "thr": thr, "tol": tol, "seed": 12345 + steps,
-                       "size": 8, "batch": batch}
+                       "size": 8, "batch": batch, "default_stepper": False}
+        for kind, batch in (("mpc", 0), ("icp", 0)):
+            for sd in (12346, 12347):
+                yield {"kind": kind, "steps": 1, "patience": 1, "thr": 1e-3, "tol": 1e-5, "seed": sd, "size": 8, "batch": batch, "default_stepper": True}
         for opt, strat in (("GN", "const"), ("LM", "const"), ("LM", "adapt"), ("LM", "tr")):
             for steps, patience in ((1, 1), (4, 2), (12, 3)):
                 yield {"kind": "opt_real", "opt": opt, "strat": strat, "damping": 1e-2 if strat != "tr" else 1.0, "reject": 16,
